@@ -55,8 +55,12 @@ pub struct St {
     pub ghost contexts: Set<u128>,
     pub ghost log: Seq<Ev>,
     pub ghost last_id: u128,
+    pub ghost errs: nat,      // number of storage-layer errors reported so far
 }
 
+impl St {
+    pub open spec fn errs_same(&self, o: &St) -> bool { self.errs == o.errs }
+}
 pub open spec fn apply_op(p: Parts, op: Op) -> Parts {
     match op {
         Op::Insert(Part::Stream, k, v) => Parts { stream: p.stream.insert(k, v), ..p },
@@ -87,6 +91,7 @@ pub uninterp spec fn key_bytes<K>(k: K) -> Seq<u8>;
 pub broadcast proof fn axiom_key_bytes_arr16(a: &[u8; 16]) ensures #[trigger] key_bytes::<&[u8; 16]>(a) == a@ { admit(); }
 pub broadcast proof fn axiom_key_bytes_arr16v(a: [u8; 16]) ensures #[trigger] key_bytes::<[u8; 16]>(a) == a@ { admit(); }
 pub broadcast proof fn axiom_key_bytes_arr0(a: &[u8; 0]) ensures #[trigger] key_bytes::<&[u8; 0]>(a) == Seq::<u8>::empty() { admit(); }
+pub broadcast proof fn axiom_key_bytes_refvec(a: &Vec<u8>) ensures #[trigger] key_bytes::<&Vec<u8>>(a) == a@ { admit(); }
 pub broadcast proof fn axiom_key_bytes_vec(a: Vec<u8>) ensures #[trigger] key_bytes::<Vec<u8>>(a) == a@ { admit(); }
 
 impl Keyspace {
@@ -100,8 +105,8 @@ impl Keyspace {
     pub fn persist(&self, Tracked(st): Tracked<&mut St>, mode: fjall::PersistMode) -> (r: Result<(), FjallError>)
         ensures
             final(st).parts == old(st).parts, final(st).contexts == old(st).contexts, final(st).last_id == old(st).last_id,
-            r is Ok ==> final(st).log == old(st).log.push(Ev::Persist(mode)),
-            r is Err ==> final(st).log == old(st).log.push(Ev::PersistErr),
+            r is Ok ==> final(st).log == old(st).log.push(Ev::Persist(mode)) && final(st).errs == old(st).errs,
+            r is Err ==> final(st).log == old(st).log.push(Ev::PersistErr) && final(st).errs == old(st).errs + 1,
     { unimplemented!() }
 }
 impl Batch {
@@ -118,21 +123,21 @@ impl Batch {
     pub fn commit(self, Tracked(st): Tracked<&mut St>) -> (r: Result<(), FjallError>)
         ensures
             final(st).contexts == old(st).contexts, final(st).last_id == old(st).last_id,
-            r is Ok ==> final(st).parts == apply_ops(old(st).parts, batch_ops(&self)) && final(st).log == old(st).log.push(Ev::Commit(batch_ops(&self))),
-            r is Err ==> final(st).parts == old(st).parts && final(st).log == old(st).log.push(Ev::CommitErr),
+            r is Ok ==> final(st).parts == apply_ops(old(st).parts, batch_ops(&self)) && final(st).log == old(st).log.push(Ev::Commit(batch_ops(&self))) && final(st).errs == old(st).errs,
+            r is Err ==> final(st).parts == old(st).parts && final(st).log == old(st).log.push(Ev::CommitErr) && final(st).errs == old(st).errs + 1,
     { unimplemented!() }
 }
 impl PartitionHandle {
     // direct (non-batch) writes: applied at once, logged as their own event
     #[verifier::external_body]
     pub fn insert<K, V>(&self, Tracked(st): Tracked<&mut St>, key: K, value: V) -> (r: Result<(), FjallError>)
-        ensures final(st).contexts == old(st).contexts, final(st).last_id == old(st).last_id,
+        ensures final(st).contexts == old(st).contexts, final(st).last_id == old(st).last_id, final(st).errs_same(old(st)),
             final(st).parts == apply_op(old(st).parts, Op::Insert(part_of(self), key_bytes::<K>(key), key_bytes::<V>(value))),
             final(st).log == old(st).log.push(Ev::DirectWrite(Op::Insert(part_of(self), key_bytes::<K>(key), key_bytes::<V>(value)))),
     { unimplemented!() }
     #[verifier::external_body]
     pub fn remove<K>(&self, Tracked(st): Tracked<&mut St>, key: K) -> (r: Result<(), FjallError>)
-        ensures final(st).contexts == old(st).contexts, final(st).last_id == old(st).last_id,
+        ensures final(st).contexts == old(st).contexts, final(st).last_id == old(st).last_id, final(st).errs_same(old(st)),
             final(st).parts == apply_op(old(st).parts, Op::Remove(part_of(self), key_bytes::<K>(key))),
             final(st).log == old(st).log.push(Ev::DirectWrite(Op::Remove(part_of(self), key_bytes::<K>(key)))),
     { unimplemented!() }
@@ -180,13 +185,13 @@ impl LockRes {
 impl CtxGuard {
     #[verifier::external_body]
     pub fn insert(&mut self, Tracked(st): Tracked<&mut St>, id: Scru128Id) -> (r: bool)
-        ensures final(st).parts == old(st).parts, final(st).last_id == old(st).last_id,
+        ensures final(st).parts == old(st).parts, final(st).last_id == old(st).last_id, final(st).errs_same(old(st)),
             final(st).contexts == old(st).contexts.insert(id_u128(id)),
             final(st).log == old(st).log.push(Ev::CtxInsert(id_u128(id))),
     { unimplemented!() }
     #[verifier::external_body]
     pub fn remove(&mut self, Tracked(st): Tracked<&mut St>, id: &Scru128Id) -> (r: bool)
-        ensures final(st).parts == old(st).parts, final(st).last_id == old(st).last_id,
+        ensures final(st).parts == old(st).parts, final(st).last_id == old(st).last_id, final(st).errs_same(old(st)),
             final(st).contexts == old(st).contexts.remove(id_u128(*id)),
             final(st).log == old(st).log.push(Ev::CtxRemove(id_u128(*id))),
     { unimplemented!() }
@@ -203,14 +208,14 @@ impl BroadcastSender {
     // one Broadcast event per call, whether or not anyone is subscribed
     #[verifier::external_body]
     pub fn send(&self, Tracked(st): Tracked<&mut St>, f: Frame) -> (r: Result<usize, SendError>)
-        ensures final(st).parts == old(st).parts, final(st).contexts == old(st).contexts, final(st).last_id == old(st).last_id,
+        ensures final(st).parts == old(st).parts, final(st).contexts == old(st).contexts, final(st).last_id == old(st).last_id, final(st).errs_same(old(st)),
             final(st).log == old(st).log.push(Ev::Broadcast(f)),
     { unimplemented!() }
 }
 impl GcSender {
     #[verifier::external_body]
     pub fn send(&self, Tracked(st): Tracked<&mut St>, t: GCTask) -> (r: Result<(), SendError>)
-        ensures final(st).parts == old(st).parts, final(st).contexts == old(st).contexts, final(st).last_id == old(st).last_id,
+        ensures final(st).parts == old(st).parts, final(st).contexts == old(st).contexts, final(st).last_id == old(st).last_id, final(st).errs_same(old(st)),
             final(st).log == old(st).log.push(Ev::Gc(t)),
     { unimplemented!() }
 }
@@ -221,7 +226,7 @@ pub mod scru128 {
     #[verifier::external_body]
     pub fn new(Tracked(st): Tracked<&mut St>) -> (r: Scru128Id)
         ensures final(st).parts == old(st).parts, final(st).contexts == old(st).contexts, final(st).log == old(st).log,
-            id_u128(r) > old(st).last_id, final(st).last_id == id_u128(r),
+            id_u128(r) > old(st).last_id, final(st).last_id == id_u128(r), final(st).errs == old(st).errs,
     { unimplemented!() }
 }
 } // verus!
